@@ -30,6 +30,20 @@ def range_bodies(ctx):
     return out
 
 
+def range_views(ctx, rsites):
+    """For every positional read of a blob: (flat view, the read site in it, root body).  The view starts at the
+    outermost function that has a single call chain down to the read (today: the closure of get_range) and has the
+    crate-private functions on the way inlined, so that the bounds checks, the clamp, the allocation and the read
+    loop are judged in one control-flow graph wherever the function boundaries are drawn."""
+    out = []
+    for site in rsites:
+        root = ctx.scope_root(site.body)
+        V = ctx.flat(root)
+        for fs in ctx.flat_sites_of(V, site):
+            out.append((V, fs, root))
+    return out
+
+
 def implies_ge(op, a_is_first, edge_true):
     """Does `first op second` taking this edge imply  A >= B  where A is first if a_is_first else second?"""
     # normalise to relation between A and B
@@ -117,6 +131,7 @@ def rules(ctx, tier):
                    "to the stored size (and `start < size`), or the stored size itself",
              "get_range(key, 0, u64::MAX) on a 10-byte blob asks the allocator for 16 EiB")
     n = 0
+    views = range_views(ctx, rsites)
     for p in sorted(reach):
         b = prog.bodies[p]
         for site in b.calls():
@@ -128,7 +143,17 @@ def rules(ctx, tier):
             if "format" in (site.span.get("outer") or "") or "fmt" in (site.path or ""):
                 continue
             n += 1
-            alloc_bounded(ctx, r, b, site, site.term["args"][idx], size_f)
+            # judge the allocation in the flat view of the range path it belongs to (clamp, guard and allocation may
+            # sit in different functions), else in the flat view of its own scope
+            F = None
+            for (V, fs, root) in views:
+                if ctx.flat_sites_of(V, site):
+                    F = V
+            if F is None:
+                F = ctx.flat(ctx.scope_root(b))
+            occ = ctx.flat_sites_of(F, site) or [site]
+            for fsite in occ:
+                alloc_bounded(ctx, r, fsite.body, fsite, fsite.term["args"][idx], size_f, b)
     r.need(2, "sized allocations on the read path")
     out.append(r.finish())
 
@@ -155,26 +180,32 @@ def rules(ctx, tier):
     r = Rule("R3", "reject polarity: the invalid-range error is returned exactly when start > end; start >= size yields "
                    "the empty result before the clamp",
              "a valid request is rejected, or an inverted range is served")
-    reject_polarity(ctx, r, rsites, size_f)
-    r.need(3, "error arm, empty arm, clamp")
+    reject_polarity(ctx, r, views, size_f)
+    r.need(2, "error arm, start<size before the read")
     out.append(r.finish())
 
     r = Rule("R4", "the accumulators advance together: offset, filled length and set_len all move by the bytes just read",
              "bytes are skipped or duplicated when a read returns fewer bytes than asked")
-    for site in rsites:
-        accumulators(ctx, r, site)
+    for (V, fsite, root) in views:
+        accumulators(ctx, r, fsite)
     r.need(5, "three accumulators, offset argument, slice bound")
     out.append(r.finish())
 
     r = Rule("R5", "get_size uses metadata only; get_reader wraps the descriptor opened on the looked-up hash",
              "get_size touches the file system (and can fail); get_reader streams another file")
+    from ..flat import view_events
     for b in ctx.live_roots():
-        names = sem_set(e for e in ctx.may.all_events(b.path) if ctx._concrete(e))
-        if "INDEX_READ" in names and "BLOB_OPEN" not in names and "INDEX_MUTATE" not in names \
-                and prog.ty_str(b.locals[0]).startswith("std::result::Result<std::option::Option<u64>"):
-            fx = [e for e in ctx.fx.effects if e.site.body.path in prog.reachable_bodies([b]) and e.kind != "FS_CLOSE"]
+        # the events of this entry point in its own binding context (a lookup helper shared with get/get_range may be
+        # generic over what it does with the item)
+        names = set()
+        evs = set()
+        if prog.ty_str(b.locals[0]).startswith("std::result::Result<std::option::Option<u64>"):
+            evs = view_events(ctx, ctx.flat(b))
+            names = sem_set(e for e in evs if ctx._concrete(e))
+        if "INDEX_READ" in names and "INDEX_MUTATE" not in names:
+            fx = sorted(set(e[0] for e in evs if e[0].startswith(("FS_", "FLOCK")) and e[0] != "FS_CLOSE"))
             r.check(not fx, "size-no-io:%s" % b.path.split("::")[-1], b, "%s has no file-system effect" % b.path,
-                    "%s may %s" % (b.path, "; ".join(e.describe() for e in fx[:2])))
+                    "%s may %s" % (b.path, "; ".join(fx[:3])))
         if "BufReader" in prog.ty_str(b.locals[0]):
             # the reader is built from the file handed in by the lookup body
             ok = False
@@ -207,48 +238,65 @@ def rules(ctx, tier):
     return out
 
 
-def alloc_bounded(ctx, r, b, site, size_op, size_f):
+def alloc_bounded(ctx, r, b, site, size_op, size_f, key_body=None):
+    """b is a flat view; key_body the original function the allocation is written in (for stable keys)."""
     prog = ctx.prog
+    kb = key_body or b
     sl = Slicer(ctx.world, b)
     lv = sl.leaves_of_operand(size_op)
     where = site_where(site)
-    # (a) size = parameter that callers bind to item.<size>
     plv = set(l for l in lv if l[0] != "const")
-    if plv and all(l[0] == "param" and not l[2] for l in plv) and len(plv) == 1:
-        pi = list(plv)[0][1]
-        ok = _callers_pass(ctx, b, pi, lambda cb, csl, a: all(
-            x[0] == "param" and x[2] and x[2][-1] == size_f for x in csl.leaves_of_operand(a)))
-        r.check(ok, "alloc:size-hint:%s" % b.path.split("::")[-1], b,
-                "allocation at %s is the stored blob size" % where,
-                "allocation at %s takes parameter #%d, which callers do not bind to the stored size" % (where, pi), where)
+    # (a) the stored size itself
+    if plv and _is_size(plv, size_f):
+        r.ok("alloc:size-hint:%s" % kb.path.split("::")[-1], kb, "allocation at %s is the stored blob size" % where)
         return
-    # (b) size = end - start with both parameters
+    # (b) size = end - start, start <= end, end clamped to the stored size, start < size
     subs = [l for l in lv if l[0] == "binop" and l[1] in SUB_OPS]
     if len(lv) == 1 and subs:
         bb = subs[0][2]
         ops = [x for x in binops_in(b, bb) if x[1] in SUB_OPS]
         if ops:
             _, _, a, bo = ops[0]
-            la = sl.leaves_of_operand(a)
-            lb = sl.leaves_of_operand(bo)
-            if all(x[0] == "param" and not x[2] for x in la | lb) and la and lb:
-                end_i = list(la)[0][1]
-                start_i = list(lb)[0][1]
-                ok_guard, why = sub_guarded(ctx, b, bb, a, bo)
-                # callers: end clamped by min(_, item.size); call dominated by start < item.size
-                def end_clamped(cb, csl, a2):
-                    return clamped_to_size(ctx, cb, csl, a2, size_f)
-                ok_end = _callers_pass(ctx, b, end_i, end_clamped)
-                ok_start = _callers_start_below_size(ctx, b, start_i, size_f)
-                r.check(ok_guard and ok_end and ok_start, "alloc:end-minus-start:%s" % b.path.split("::")[-1], b,
-                        "allocation at %s is end-start with start<=end (%s), end=min(end,size) and start<size at every call" % (where, why),
-                        "allocation at %s = end-start is not bounded by the blob size (start<=end: %s; end clamped at callers: %s; "
-                        "start<size at callers: %s)" % (where, ok_guard, ok_end, ok_start), where)
-                return
+            ok_guard, why = sub_guarded(ctx, b, bb, a, bo)
+            ok_end = clamped_to_size(ctx, b, sl, a, size_f)
+            ok_start = start_below_size(ctx, b, sl, bo, site.bb, size_f)
+            r.check(ok_guard and ok_end and ok_start, "alloc:end-minus-start:%s" % kb.path.split("::")[-1], kb,
+                    "allocation at %s is end-start with start<=end (%s), end clamped to the stored size and start<size" % (where, why),
+                    "allocation at %s = end-start is not bounded by the blob size (start<=end: %s; end clamped to the "
+                    "stored size: %s; start<size before it: %s)" % (where, ok_guard, ok_end, ok_start), where)
+            return
+    if plv and len(plv) == 1 and list(plv)[0][0] == "param" and not list(plv)[0][2]:
+        r.bad("alloc:size-hint:%s" % kb.path.split("::")[-1], kb,
+              "allocation at %s takes parameter #%d, which is not bound to the stored size on this path" % (
+                  where, list(plv)[0][1]), where)
+        return
     consts = lv and all(l[0] == "const" for l in lv)
-    r.check(bool(consts), "alloc:%s" % (site.path or "?"), b, "constant-size allocation at %s" % where,
+    r.check(bool(consts), "alloc:%s" % (site.path or "?"), kb, "constant-size allocation at %s" % where,
             "allocation at %s has a size of origin %s that is not shown to be bounded by the blob size" % (
                 where, sorted(fmt_leaf(l) for l in lv)), where)
+
+
+def start_below_size(ctx, b, sl, start_op, at_bb, size_f):
+    """Is block at_bb dominated by a comparison edge on which start < size?"""
+    start_l = sl.leaves_of_operand(start_op)
+    if not start_l:
+        return False
+    for sw in b.normal_blocks():
+        c = cfgutil.cmp_true_edge(b, sw)
+        if c is None:
+            continue
+        op, x, y, t_true, t_false = c
+        lx, ly = sl.leaves_of_operand(x), sl.leaves_of_operand(y)
+        x_start, y_start = bool(lx) and lx <= start_l, bool(ly) and ly <= start_l
+        x_size, y_size = _is_size(lx, size_f), _is_size(ly, size_f)
+        for (edge_t, is_true) in ((t_true, True), (t_false, False)):
+            if edge_t is None or not cfgutil.edge_dominates(b, (sw, edge_t), at_bb):
+                continue
+            if x_start and y_size and ((op == "Lt" and is_true) or (op == "Ge" and not is_true)):
+                return True
+            if y_start and x_size and ((op == "Gt" and is_true) or (op == "Le" and not is_true)):
+                return True
+    return False
 
 
 def _is_size(lv, size_f):
@@ -307,108 +355,49 @@ def clamped_to_size(ctx, cb, csl, op, size_f):
     return True
 
 
-def _callers_pass(ctx, b, param_i, pred):
+def reject_polarity(ctx, r, views, size_f):
     prog = ctx.prog
-    callers = prog.callers_index().get(b.path, [])
-    if not callers:
-        return False
-    for (cs, how) in callers:
-        cb = cs.body
-        csl = Slicer(ctx.world, cb)
-        if param_i - 1 >= len(cs.term["args"]):
-            return False
-        if not pred(cb, csl, cs.term["args"][param_i - 1]):
-            return False
-    return True
-
-
-def _callers_start_below_size(ctx, b, start_i, size_f):
-    prog = ctx.prog
-    for (cs, how) in prog.callers_index().get(b.path, []):
-        cb = cs.body
-        csl = Slicer(ctx.world, cb)
-        start_l = csl.leaves_of_operand(cs.term["args"][start_i - 1])
-        ok = False
-        for sw in cb.normal_blocks():
-            c = cfgutil.cmp_true_edge(cb, sw)
-            if c is None:
-                continue
-            op, x, y, t_true, t_false = c
-            lx = csl.leaves_of_operand(x)
-            ly = csl.leaves_of_operand(y)
-            x_start = bool(lx & start_l)
-            y_size = bool(ly) and all(z[0] == "param" and z[2] and z[2][-1] == size_f for z in ly)
-            y_start = bool(ly & start_l)
-            x_size = bool(lx) and all(z[0] == "param" and z[2] and z[2][-1] == size_f for z in lx)
-            # start < size on the edge that dominates the call
-            for (edge_t, is_true) in ((t_true, True), (t_false, False)):
-                if edge_t is None or not cfgutil.edge_dominates(cb, (sw, edge_t), cs.bb):
-                    continue
-                if x_start and y_size:
-                    rel_lt = (op == "Lt" and is_true) or (op == "Ge" and not is_true)
-                    if rel_lt:
-                        ok = True
-                if y_start and x_size:
-                    rel_lt = (op == "Gt" and is_true) or (op == "Le" and not is_true)
-                    if rel_lt:
-                        ok = True
-        if not ok:
-            return False
-    return True
-
-
-def reject_polarity(ctx, r, rsites, size_f):
-    prog = ctx.prog
-    for site in rsites:
-        b = site.body
+    for (b, fsite, root) in views:
+        ob = b.origin_body(fsite.bb)
         sl = Slicer(ctx.world, b)
-        rf = ctx.must(None).rf(b)
-        # non-I/O Err returns: aggregate error variants without an io::Error source built in this body
+        # Err values built on the way (not by map_err closures: those wrap an io::Error): only on `start > end`
+        subs = [(bb2, o) for bb2 in b.normal_blocks() for o in binops_in(b, bb2) if o[1] in SUB_OPS]
         for bb in b.normal_blocks():
             for s in b.stmts(bb):
-                if s["k"] == "assign" and s["lhs"]["l"] == 0 and not s["lhs"]["p"] and s["rv"]["k"] == "agg" \
-                        and s["rv"].get("vn") == "Err":
-                    ok = False
-                    for sw in b.normal_blocks():
-                        c = cfgutil.cmp_true_edge(b, sw)
-                        if c is None or c[0] not in ("Gt", "Lt"):
-                            continue
-                        op, x, y, t_true, t_false = c
-                        lx = sl.leaves_of_operand(x)
-                        ly = sl.leaves_of_operand(y)
-                        params = all(z[0] == "param" and not z[2] for z in lx | ly)
-                        if params and t_true is not None and cfgutil.edge_dominates(b, (sw, t_true), bb):
-                            # which is start, which is end: the subtraction end - start identifies them
-                            ok = True
-                            start_end = (lx, ly) if op == "Gt" else (ly, lx)
-                            subs = [(bb2, o) for bb2 in b.normal_blocks() for o in binops_in(b, bb2) if o[1] in SUB_OPS]
-                            consistent = any(sl.leaves_of_operand(o[2]) == start_end[1] and sl.leaves_of_operand(o[3]) == start_end[0]
-                                             for _, o in subs)
-                            ok = consistent
-                    r.check(ok, "invalid-range-iff-start-gt-end", b,
-                            "the range error at %s:%d is returned only on `start > end`" % (b.file, s.get("line", 0)),
-                            "the range error at %s:%d is not tied to `start > end` of the values that are subtracted" % (
-                                b.file, s.get("line", 0)), "%s:%d" % (b.file, s.get("line", 0)))
-        # callers: the empty result for start >= size precedes the clamp
-        for (cs, how) in prog.callers_index().get(b.path, []):
-            cb = cs.body
-            csl = Slicer(ctx.world, cb)
-            empties = []
-            for bb in cb.normal_blocks():
-                for s in cb.stmts(bb):
-                    if s["k"] == "assign" and s["lhs"]["l"] == 0 and s["rv"]["k"] == "agg" and s["rv"].get("vn") == "Ok":
-                        lv = csl.leaves_of_operand(s["rv"]["ops"][0])
-                        if any(l[0] == "call" and l[1].endswith("Bytes::new") for l in lv):
-                            empties.append(bb)
-            r.check(bool(empties), "empty-arm", cb, "%s has an empty-result arm" % stable_path(cb),
-                    "%s has no empty-result arm for start >= size" % stable_path(cb))
-            ok = False
-            for sw in cb.normal_blocks():
-                c = cfgutil.cmp_true_edge(cb, sw)
+                if not (s["k"] == "assign" and not s["lhs"]["p"] and s["rv"]["k"] == "agg" and s["rv"].get("vn") == "Err"
+                        and s["rv"].get("def") == "std::result::Result"):
+                    continue
+                if not (bb in _can_reach(b, fsite.bb) or fsite.bb in cfgutil.reach(b, bb) or True):
+                    continue
+                ok = False
+                for sw in b.normal_blocks():
+                    c = cfgutil.cmp_true_edge(b, sw)
+                    if c is None or c[0] not in ("Gt", "Lt"):
+                        continue
+                    op, x, y, t_true, t_false = c
+                    if t_true is None or not cfgutil.edge_dominates(b, (sw, t_true), bb):
+                        continue
+                    lx, ly = sl.leaves_of_operand(x), sl.leaves_of_operand(y)
+                    start_end = (lx, ly) if op == "Gt" else (ly, lx)
+                    if any(sl.leaves_of_operand(o[2]) == start_end[1] and sl.leaves_of_operand(o[3]) == start_end[0]
+                           for _, o in subs):
+                        ok = True
+                kb = b.origin_body(bb)
+                r.check(ok, "invalid-range-iff-start-gt-end", kb,
+                        "the range error at %s:%d is returned only on `start > end`" % (kb.file, s.get("line", 0)),
+                        "the range error at %s:%d is not tied to `start > end` of the values that are subtracted" % (
+                            kb.file, s.get("line", 0)), "%s:%d" % (kb.file, s.get("line", 0)))
+        # the read happens only below the stored size; at or above it the result is produced without reading
+        off = fsite.term["args"][2] if len(fsite.term["args"]) > 2 else None
+        ok = False
+        if off is not None:
+            reads = [s2.bb for s2 in b.sites() if any(e.kind == "FS_READ" for e in ctx.effects_at(s2))]
+            for sw in b.normal_blocks():
+                c = cfgutil.cmp_true_edge(b, sw)
                 if c is None or c[0] not in ("Ge", "Lt", "Gt", "Le"):
                     continue
                 op, x, y, t_true, t_false = c
-                lx, ly = csl.leaves_of_operand(x), csl.leaves_of_operand(y)
+                lx, ly = sl.leaves_of_operand(x), sl.leaves_of_operand(y)
                 if _is_size(ly, size_f) and op in ("Ge", "Lt"):
                     below = t_false if op == "Ge" else t_true
                     above = t_true if op == "Ge" else t_false
@@ -417,17 +406,20 @@ def reject_polarity(ctx, r, rsites, size_f):
                     above = t_true if op == "Le" else t_false
                 else:
                     continue
-                if below is not None and cfgutil.edge_dominates(cb, (sw, below), cs.bb) and empties and \
-                        all(cfgutil.edge_dominates(cb, (sw, above), e) for e in empties):
+                if below is None or above is None or not cfgutil.edge_dominates(b, (sw, below), fsite.bb):
+                    continue
+                beyond = cfgutil.reach(b, above, removed_edges=[(sw, below)])
+                if not (set(reads) & beyond):
                     ok = True
-            r.check(ok, "range-read-only-below-size", cb,
-                    "the range read at %s happens only when start < size; start >= size returns the empty result" % site_where(cs),
-                    "the range read at %s is not preceded by the `start >= size` early return" % site_where(cs), site_where(cs))
+        r.check(ok, "range-read-only-below-size", ob,
+                "the range read at %s happens only when start < size; start >= size produces its result without reading" % site_where(fsite),
+                "the range read at %s is not preceded by the `start >= size` early exit" % site_where(fsite), site_where(fsite))
 
 
 def accumulators(ctx, r, site):
     """site: the positional read in the loop."""
     b = site.body
+    kb = b.origin_body(site.bb) if getattr(b, "is_flat", False) else b
     prog = ctx.prog
     sl = Slicer(ctx.world, b)
     # n = bytes read: the Ok payload of the read
@@ -440,7 +432,7 @@ def accumulators(ctx, r, site):
                 lv = sl.leaves_of_operand(rv["op"])
                 if any(x[0] == "call" and x[2] == site.bb for x in lv) and prog.ty_str(b.locals[l]) == "usize":
                     n_locals.add(l)
-    r.check(bool(n_locals), "bytes-read", b, "bytes-read value found", "cannot find the bytes-read value of the read at %s" % site_where(site))
+    r.check(bool(n_locals), "bytes-read", kb, "bytes-read value found", "cannot find the bytes-read value of the read at %s" % site_where(site))
     loop_hdrs = [h for h in b.normal_blocks() if any(b.dominates(h, p) for p in b.preds(h)) and site.bb in cfgutil.natural_loop(b, h)]
     loop = set().union(*[cfgutil.natural_loop(b, h) for h in loop_hdrs]) if loop_hdrs else set()
     adds = []
@@ -453,14 +445,14 @@ def accumulators(ctx, r, site):
         ra, rb = root_local(b, a), root_local(b, bo)
         if ra in n_locals or rb in n_locals:
             by_n.append((bb, lhs, a, bo, rb if ra in n_locals else ra))
-    r.check(len(by_n) >= 3, "advance-by-bytes-read", b,
+    r.check(len(by_n) >= 3, "advance-by-bytes-read", kb,
             "%d accumulator updates in the loop add the bytes just read (%s)" % (
                 len(by_n), ", ".join("%s:%d" % (b.file, b.blocks[x[0]]["span"]["line"]) for x in by_n)),
             "only %d accumulator update(s) in the read loop add the bytes-read value (expected offset, filled, len)" % len(by_n))
     for (bb, lhs, a, bo) in adds:
         ra, rb = root_local(b, a), root_local(b, bo)
         if not (ra in n_locals or rb in n_locals):
-            r.bad("advance-by-other", b, "an accumulator in the read loop at %s:%d advances by something other than the bytes read" % (
+            r.bad("advance-by-other", kb, "an accumulator in the read loop at %s:%d advances by something other than the bytes read" % (
                 b.file, b.blocks[bb]["span"]["line"]), "%s:%d" % (b.file, b.blocks[bb]["span"]["line"]))
     # offset argument of the read = an accumulator initialised from a parameter and advanced only by n
     off = site.term["args"][2] if len(site.term["args"]) > 2 else None
@@ -475,10 +467,10 @@ def accumulators(ctx, r, site):
                 other = True
             elif rv["k"] == "use":
                 lv = sl.leaves_of_operand(rv["op"])
-                if all(x[0] == "param" and not x[2] for x in lv) and lv:
-                    init_param = True
-                elif any(x[0] == "binop" and x[1] in ADD_OPS for x in lv):
+                if any(x[0] == "binop" and x[1] in ADD_OPS for x in lv):
                     adv = True
+                elif lv and dbb not in loop and not any(x[0] == "call" and x[2] == site.bb for x in lv):
+                    init_param = True       # the start offset, set once before the loop
                 else:
                     other = True
             elif rv["k"] == "binop":
@@ -489,7 +481,7 @@ def accumulators(ctx, r, site):
                     other = True
             else:
                 other = True
-        r.check(init_param and adv and not other, "offset-accumulator", b,
+        r.check(init_param and adv and not other, "offset-accumulator", kb,
                 "the read offset starts at the start parameter and only advances by the bytes read",
                 "the offset passed to the read at %s is not `start` advanced by the bytes read" % site_where(site), site_where(site))
     # slice bound: from_raw_parts(ptr, remaining), remaining = min(spare.len(), want - filled)
@@ -500,17 +492,62 @@ def accumulators(ctx, r, site):
         if l[0] == "call" and l[1].endswith("from_raw_parts_mut"):
             t = b.blocks[l[2]]["term"]
             ln = sl.leaves_of_operand(t["args"][1])
+            ptr = sl.leaves_of_operand(t["args"][0])
+            from_spare = any(y[0] == "call" and "spare_capacity_mut" in y[1] for y in ptr) or \
+                any(y[0] == "call" and y[1].endswith("as_mut_ptr") for y in ptr)
+
+            def is_spare_len(y):
+                return y[0] == "call" and y[1].endswith("::len")
+
+            def is_remaining(y):
+                return y[0] == "binop" and y[1] in SUB_OPS
             for x in ln:
                 if x[0] == "call" and x[1] in ("std::cmp::min", "std::cmp::Ord::min"):
                     t2 = b.blocks[x[2]]["term"]
                     la = [sl.leaves_of_operand(z) for z in t2["args"]]
-                    has_spare = any(any(y[0] == "call" and y[1].endswith("::len") for y in al) for al in la)
-                    has_rem = any(any(y[0] == "binop" and y[1] in SUB_OPS for y in al) for al in la)
-                    ptr = sl.leaves_of_operand(t["args"][0])
-                    from_spare = any(y[0] == "call" and "spare_capacity_mut" in y[1] for y in ptr) or \
-                        any(y[0] == "call" and y[1].endswith("as_mut_ptr") for y in ptr)
+                    has_spare = any(any(is_spare_len(y) for y in al) for al in la)
+                    has_rem = any(any(is_remaining(y) for y in al) for al in la)
                     ok = has_spare and has_rem and from_spare
-    r.check(ok, "slice-bound", b,
+            if not ok and ln and all(is_spare_len(y) or is_remaining(y) for y in ln) and \
+                    any(is_spare_len(y) for y in ln) and any(is_remaining(y) for y in ln):
+                # `if spare.len() < remaining { spare.len() } else { remaining }`: each value is taken on the edge of a
+                # comparison of exactly these two on which it is the smaller one
+                pl = place_of(t["args"][1])
+                l0 = root_local(b, t["args"][1])
+                defs = b.assignments().get(l0, []) if isinstance(l0, int) else []
+                good = len(defs) >= 2
+                for (dbb, j, rv) in defs:
+                    if j == "term":
+                        vl = {("call", term_path(rv) or "?", dbb, ())}
+                    elif rv["k"] == "use":
+                        vl = sl.leaves_of_operand(rv["op"])
+                    else:
+                        good = False
+                        continue
+                    fine = False
+                    for sw in b.normal_blocks():
+                        c = cfgutil.cmp_true_edge(b, sw)
+                        if c is None or c[0] not in ("Lt", "Le", "Gt", "Ge"):
+                            continue
+                        op_, p_, q_, t_true, t_false = c
+                        lp, lq = sl.leaves_of_operand(p_), sl.leaves_of_operand(q_)
+                        if not ((all(map(is_spare_len, lp)) and all(map(is_remaining, lq))) or
+                                (all(map(is_remaining, lp)) and all(map(is_spare_len, lq)))) or not lp or not lq:
+                            continue
+                        for (edge_t, is_true) in ((t_true, True), (t_false, False)):
+                            if edge_t is None or not cfgutil.edge_dominates(b, (sw, edge_t), dbb):
+                                continue
+                            # on this edge: is the assigned value <= the other one?
+                            def kind(ls):
+                                return "spare" if ls and all(map(is_spare_len, ls)) else (
+                                    "rem" if ls and all(map(is_remaining, ls)) else None)
+                            if kind(vl) is not None and kind(vl) == kind(lp) and implies_ge(op_, False, is_true):
+                                fine = True       # q >= p
+                            if kind(vl) is not None and kind(vl) == kind(lq) and implies_ge(op_, True, is_true):
+                                fine = True       # p >= q
+                    good = good and fine
+                ok = good and from_spare
+    r.check(ok, "slice-bound", kb,
             "the read target is the spare capacity, at most min(spare, remaining) bytes",
             "the slice handed to the read at %s is not bounded by min(spare capacity, remaining)" % site_where(site), site_where(site))
     # set_len argument = len + n
@@ -526,5 +563,5 @@ def accumulators(ctx, r, site):
                             la = sl.leaves_of_operand(a) | sl.leaves_of_operand(bo)
                             if (ra in n_locals or rb in n_locals) and any(y[0] == "call" and y[1].endswith("Vec::len") for y in la):
                                 good = True
-            r.check(good, "set-len", b, "set_len(len + bytes_read) at %s" % site_where(s),
+            r.check(good, "set-len", kb, "set_len(len + bytes_read) at %s" % site_where(s),
                     "set_len at %s is not len() + bytes_read" % site_where(s), site_where(s))
